@@ -23,6 +23,11 @@ CHECKS["C04"] = ("exploration",
  "Every derivation of six grammars placed on the rewrite preconditions (literal shapes, one-instruction arguments, constant conditionals, self calls in/out of tail position, constant paths under update operators, join points followed by pop/const), of the C01/C02 grammars, the context towers and the corpus is compiled with all optimisations on, with each of the 14 optimisation switches off alone, and with all off; every configuration whose instruction list differs is run on every input of the universe and must emit the same values and errors in the same order.",
  "Trusted: the 14 add-only guard lines (build tag verif) really select the compiler's general lowering. Error-message-only differences of uncaught errors are counted, not alarmed. Programs above the bounds are not covered.",
  "DESIGN.md §4 C04")
+CHECKS["C10"] = ("exploration",
+ "bounded-exhaustive operand-pair enumeration against math/big",
+ "All ordered pairs of a ~1200-value boundary operand set (powers of two and neighbours to 2^130, int64/uint32/sqrt(2^63) boundaries, powers of ten, long decimal integers) are run through + - * / % and the six comparisons in all nine pairs of exact Go representations (int, *big.Int, json.Number) and compared with math/big; unary neg/abs/length/tostring/tojson/fromjson/tonumber likewise; the operands again as literals in query text; ~1300 number-literal shapes are passed through ten untouched-value forms, Marshal, tojson/tostring and the command and must print verbatim; float64 boundary classes must print as shortest round-trip valid JSON (NaN null, infinities saturated).",
+ "Trusted: math/big, strconv. A non-integral quotient is only checked to be a number.",
+ "DESIGN.md §4 C10")
 NOT_YET = "check not built yet (work in progress in this session); see DESIGN.md for the planned exploration"
 
 def commits():
